@@ -197,13 +197,33 @@ pub fn rule_yaml_block(r: &Value, style: u64) -> String {
             o.push_str("matches: {}\n");
         } else {
             o.push_str("matches:\n");
+            // style bit 16: a match text written once, anchored, and referred to by alias where it occurs again
+            let mut seen: Vec<String> = vec![];
+            let dup = |t: &str| ms.iter().filter(|e| e[1].as_str() == Some(t)).count() > 1;
             for e in ms {
-                o.push_str(&format!("  {}: {}\n", yq(e[0].as_str().unwrap_or("")), sq(e[1].as_str().unwrap_or(""))));
+                let t = e[1].as_str().unwrap_or("");
+                if style & 16 == 16 && dup(t) {
+                    match seen.iter().position(|x| x == t) {
+                        Some(i) => o.push_str(&format!("  {}: *m{i}\n", yq(e[0].as_str().unwrap_or("")))),
+                        None => {
+                            o.push_str(&format!("  {}: &m{} {}\n", yq(e[0].as_str().unwrap_or("")), seen.len(), sq(t)));
+                            seen.push(t.to_string());
+                        }
+                    }
+                } else {
+                    o.push_str(&format!("  {}: {}\n", yq(e[0].as_str().unwrap_or("")), sq(t)));
+                }
             }
         }
     }
     if let Some(c) = r.get("condition").and_then(|c| c.as_str()) {
-        o.push_str(&format!("condition: {}\n", sq(c)));
+        // style bit 32: a block scalar (`|-` literal or `>-` folded, final line break stripped) when the text allows
+        let simple = !c.is_empty() && !c.starts_with(' ') && !c.ends_with(' ') && c.chars().all(|ch| (ch as u32) >= 0x20 && (ch as u32) < 0x7f);
+        if style & 32 == 32 && simple {
+            o.push_str(&format!("condition: {}\n  {}\n", if style & 1 == 1 { "|-" } else { ">-" }, c));
+        } else {
+            o.push_str(&format!("condition: {}\n", sq(c)));
+        }
     }
     if let Some(s) = r.get("severity") {
         if !s.is_null() {
